@@ -43,7 +43,7 @@ ASSUMPTIONS = ["default scanner state only (no State(...) groups, no Begin actio
 ALPHA = "abc\n"
 # model variant of Regexps.chars_to_ranges: False = the code as it is (a repeated character widens the
 # range, finding any_duplicate_chars); flip to True once proposed_fixes/C50-any_duplicate_chars.diff is applied
-C2R_DEDUP = (os.environ.get("C50_C2R_DEDUP") or "0") == "1"      # default "0" -> "1" after the patch
+C2R_DEDUP = (os.environ.get("C50_C2R_DEDUP") or "1") == "1"      # default "0" -> "1" after the patch
 
 # --------------------------------------------------------------------------------------------
 # surface regular expressions (JSON-able nested lists)
